@@ -61,6 +61,10 @@ def core():
     D.append(Def('long_ident', variants=[Var('Ident', [R('[a-zA-Z_][a-zA-Z0-9_]*')]), Var('Eq', [T('==')])], tags=('loop', 'long')))
     D.append(Def('long_float', variants=[Var('Num', [R('[0-9]+')]), Var('Float', [R('[0-9]+\\.[0-9]+')])], tags=('loop', 'long')))
     D.append(Def('long_skip', skips=[R(' +')], variants=[Var('X', [T('x')])], tags=('loop', 'long')))
+    # literals whose tail is a linear run of more than eight single-byte states (word-wise comparison territory), next to
+    # a one-byte literal sharing the first byte and an identifier loop sharing a later prefix
+    D.append(Def('long_lit', variants=[Var('Doctype', [T('<!DOCTYPE html>')]), Var('Lt', [T('<')]), Var('Kw', [T('synchronized')]),
+                                       Var('Id', [R('[a-z]+')]), Var('Cd', [R('<!\\[CDATA\\[[a-z]*\\]\\]>')])], tags=('loop', 'long')))
     # one- and two-edge states whose edge classes are rendered as compare chains (impl_fork_match): byte pairs 0x20 apart
     # with and without bit 5 set, ranges with one and two holes, full ranges minus isolated bytes, negated classes
     D.append(Def('cmp_shapes_b', utf8=False, skips=[R(b'\\\\[^\\n\\r]')], variants=[
@@ -181,6 +185,17 @@ def core():
     # --- skip only / ends in skip / several skips
     D.append(Def('skips', skips=[R(r'[ \t]+'), R(r'#[a-z]*\n'), T(';')], variants=[
         Var('W', [R('[a-z]+')]), Var('Hash', [T('#')])], tags=('quick', 'loop')))
+    # callback-less skips of the shape opener + unbounded loop (line comments): the end of a partial buffer inside the
+    # comment must not commit the part seen so far
+    D.append(Def('skip_comments_b', utf8=False, skips=[R(rb'//[^\n]*', allow_greedy=True), R(rb'[ \t\n]+')], variants=[
+        Var('W', [R(b'[a-z]+')]), Var('Slash', [T(b'/')]), Var('Num', [R(b'[0-9]+')])], tags=('quick', 'loop', 'bytes')))
+    D.append(Def('skip_comments_s', skips=[R(r'--[a-z ]*'), R(r'[ \t\n]+')], variants=[
+        Var('W', [R('[a-z]+')]), Var('Minus', [T('-')]), Var('Arrow', [T('->')])], tags=('quick', 'loop')))
+    # more than 64 patterns (anything that keeps per-leaf sets in a machine word): 66 keyword tokens, then the
+    # non-extendable punctuation tokens and an identifier with the highest leaf indices
+    D.append(Def('many_patterns', skips=[R(' +')], variants=[Var(f'K{i:02d}', [T(f'k{i:02d}')]) for i in range(66)] + [
+        Var('Semi', [T(';')]), Var('LParen', [T('(')]), Var('Assign', [T(':=')]), Var('Colon', [T(':')]), Var('Id', [R('[a-jl-z]+')])],
+        tags=('quick', 'loop')))
     # --- several attributes on one variant
     D.append(Def('multi_attr', variants=[
         Var('Unit', [R('em|ex|ch|rem|vw|vh|vmin|vmax'), R('cm|mm|Q|in|pc|pt|px', prio=3)]),
@@ -207,6 +222,17 @@ def reject_core():
                  tags=('nonutf8', 'subpat')))
     D.append(Def('rej_nonutf8_skip', skips=[R(b'\xC2')], variants=[Var('A', [R('[a-z]+')])], expect='reject', tags=('nonutf8',)))
     D.append(Def('rej_nonutf8_skip2', skips=[R('(?-u:[\\x80-\\xBF])+')], variants=[Var('A', [R('[a-z]+')])], expect='reject',
+                 tags=('nonutf8',)))
+    # the same with allow_greedy = true (the greedy-repetition check and the UTF-8 check are separate conditions)
+    D.append(Def('rej_nonutf8_greedy', variants=[Var('A', [R(b'#[^\n]*', allow_greedy=True)]), Var('W', [R('[a-z]+')])], expect='reject',
+                 tags=('nonutf8',)))
+    D.append(Def('rej_nonutf8_greedy_skip', skips=[R(b'[\x80-\xBF]', allow_greedy=True)], variants=[Var('W', [R('[a-z]+')])],
+                 expect='reject', tags=('nonutf8',)))
+    D.append(Def('rej_nonutf8_greedy_dot', variants=[Var('A', [R('(?s-u)/.*', allow_greedy=True)]), Var('W', [R('[a-z]+')])],
+                 expect='reject', tags=('nonutf8',)))
+    D.append(Def('rej_nonutf8_prio', variants=[Var('A', [R(b'[\xC0-\xFF]x', prio=9)]), Var('W', [R('[a-z]+')])], expect='reject',
+                 tags=('nonutf8',)))
+    D.append(Def('rej_nonutf8_ic', variants=[Var('A', [T(b'\xE9t\xE9', ignore_case=True)]), Var('W', [R('[a-z]+')])], expect='reject',
                  tags=('nonutf8',)))
     D.append(Def('rej_skip_tie', skips=[R('[ \\t\\n]'), R('\\n')], variants=[Var('W', [R('[a-z]+')])], expect='reject', tags=('tie',)))
     D.append(Def('rej_skip_tie2', skips=[T(' '), R(' ')], variants=[Var('W', [R('[a-z]+')])], expect='reject', tags=('tie',)))
@@ -351,6 +377,19 @@ pub fn cb_line(lex: &mut L) -> Filter<usize> { if lex.slice().len() > 3 { Filter
         Var('Word', [R('[a-z]+(?m:$)', cb='cb_wlen', cb_kind='value', cb_fn='cb_wlen')], field='usize'),
         Var('Line', [R('[a-z]+\\n', cb='cb_line', cb_kind='filter', cb_fn='cb_line')], field='usize'),
         Var('Sp', [T(' ')])], tags=('cb', 'look', 'quick')))
+    # skip *attributes* carrying callbacks on patterns that end in an unbounded repetition (early-accept looping states):
+    # the callback must run for every skipped run (its Err, its extras update and its bump are observable)
+    D.append(Def('cb_skip_loop', error='MyErr', extras='usize', prelude=CB_PRELUDE + '''
+pub fn cb_lines(lex: &mut L) { lex.extras += lex.slice().len(); }
+pub fn cb_dashes(lex: &mut L) -> Result<(), u8> { if lex.slice().len() == 2 { Err(2) } else { Ok(()) } }
+pub fn cb_hash(lex: &mut L) {
+    let r = lex.remainder().as_bytes();
+    if !r.is_empty() && r[0] == b'!' { lex.bump(1); }
+}
+''', skips=[R(r'\n+', cb='cb_lines', cb_kind='skip_unit', cb_fn='cb_lines'),
+            R('-+', cb='cb_dashes', cb_kind='skip_result', cb_fn='cb_dashes'),
+            R('#+', cb='cb_hash', cb_kind='skip_unit', cb_fn='cb_hash'), R('/[a-z]*')], variants=[
+        Var('W', [R('[a-z]+')]), Var('Bang', [T('!')])], tags=('cb', 'no_consumption_rule', 'quick', 'loop')))
     # byte-mode lexer whose callback bumps by a length taken from the match (records ending exactly at the end of input)
     D.append(Def('cb_bump_bytes', utf8=False, prelude='''
 pub type L<'s> = Lexer<'s, Tok>;
@@ -433,6 +472,22 @@ def literal_family(seed=0, thorough=False):
     D.append(Def('ic_bytes_regex', utf8=False, variants=[
         Var('A', [R(b'(c|\xC3\xBB)+', ignore_case=True)]), Var('B', [R(b'a', ignore_case=True)]), Var('K', [R('k', ignore_case=True)])],
         tags=('lit', 'ic', 'bytes')))
+    # ignore(case) on negated one-letter classes: in byte mode "every byte but x and X" is a full range with two isolated
+    # holes on a state with one or two edges (compare chain with exceptions); next to an ignore(case) literal on the holes
+    D.append(Def('ic_neg_b', utf8=False, variants=[
+        Var('Q', [R(b'q[^x]', ignore_case=True)]), Var('NotX', [R(b'<[^x]+>', ignore_case=True)]), Var('X', [T(b'<x>', ignore_case=True)]),
+        Var('Sp', [T(b' ')])], tags=('lit', 'ic', 'bytes', 'quick')))
+    D.append(Def('ic_neg_s', variants=[
+        Var('Q', [R('q[[:ascii:]&&[^x]]', ignore_case=True)]), Var('K', [R('k[^k]k', ignore_case=True)]), Var('Sp', [T(' ')])],
+        tags=('lit', 'ic', 'unicode', 'quick')))
+    # ignore(case) on sources that contain no upper- or lower-case *character* and still have case variants: title-case
+    # digraphs (U+01C5 folds with U+01C4 / U+01C6), classes written as ranges of punctuation that contain letters
+    D.append(Def('ic_uncased', variants=[
+        Var('Dz', [T('\u01c5', ignore_case=True)]), Var('Lj', [T('\u01c8!', ignore_case=True)]),
+        Var('Vis', [R('[!-~]+', ignore_case=True)]), Var('Sp', [T(' ')])], tags=('lit', 'ic', 'unicode', 'quick')))
+    D.append(Def('ic_uncased_b', utf8=False, variants=[
+        Var('Vis', [R(b'[!-~]+', ignore_case=True)]), Var('Hex', [R(b'\\x4B\\x2E', ignore_case=True)]), Var('Sp', [T(b' ')])],
+        tags=('lit', 'ic', 'bytes', 'quick')))
     if thorough:
         rnd = random.Random(seed)
         alpha = list('ab.+*?()[]{}|^$\\-éßΣ😀 ') + ['\n']
@@ -478,6 +533,13 @@ def subpattern_family():
                                        ('v2', '(?x) a b # two letters\n c')], variants=[
         Var('Length', [R('(?&length)')]), Var('Number', [R('(?&digits)')]), Var('Fraction', [R('\\.(?&digits)')]),
         Var('V', [R('(?&v2)!')]), Var('Word', [R('[d-z]+')])], tags=('subpat', 'quick')))
+    # flags of the *referencing* text apply to the included text (only the Unicode mode is the subpattern's own): a verbose
+    # pattern / a verbose subpattern including sources with blanks and '#'; and (?i) / (?s) around a reference
+    D.append(Def('sub_outer_flags', subs=[('assign', '[a-z]+ = [0-9]+'), ('sep', b' : '), ('pair', '(?x) (?&assign) (?&sep) (?&assign)'),
+                                           ('kw', 'let|fn'), ('anyc', '.')], variants=[
+        Var('Assigns', [R('(?x) (?&assign) ( , (?&assign) )* ;')]), Var('Pair', [R('<(?&pair)>')]), Var('Plain', [R('\\[(?&assign)\\]')]),
+        Var('Kw', [R('(?i)(?&kw)!')]), Var('KwCs', [R('(?&kw)\\?')]), Var('Dots', [R('(?s)~(?&anyc)~')]), Var('DotNoS', [R('@(?&anyc)@')]),
+        Var('Sp', [T(' ')])], tags=('subpat', 'quick')))
     D.append(Def('sub_same_a', subs=[('d', '[0-9]'), ('w', '(?&d)+x')], variants=[Var('N', [R('n(?&d)+')]), Var('W', [R('(?&w)')])],
                  tags=('subpat', 'quick')))
     D.append(Def('sub_same_b', subs=[('d', '[a-f]'), ('w', '(?&d)+x')], variants=[Var('N', [R('n(?&d)+')]), Var('W', [R('(?&w)')])],
@@ -489,8 +551,109 @@ def subpattern_family():
     return D
 
 
+# ----------------------------------------------------------------------------- byte-class shapes x state shapes
+def _cmp_ops(bs):
+    """number of compare operations ByteClass::impl_with_cmp / Comparisons::count_ops would need for the byte set (computed
+    here only to *label* the shapes: <= 2 -> compare chain, > 2 -> look-up table; nothing is decided from it)"""
+    bs = sorted(bs)
+    ranges = []
+    for b in bs:
+        if ranges and ranges[-1][1] == b - 1:
+            ranges[-1][1] = b
+        else:
+            ranges.append([b, b])
+    cmps = []
+    for lo, hi in ranges:
+        if cmps and lo == cmps[-1][1] + 2:
+            cmps[-1][1] = hi
+            cmps[-1][2] += 1
+        else:
+            cmps.append([lo, hi, 0])
+    return sum((1 if lo == hi else (lo > 0) + (hi < 255)) + ex for lo, hi, ex in cmps)
+
+
+def _cls_text(bs):
+    bs = sorted(bs)
+    ranges = []
+    for b in bs:
+        if ranges and ranges[-1][1] == b - 1:
+            ranges[-1][1] = b
+        else:
+            ranges.append([b, b])
+    return '[' + ''.join(('\\x%02X' % lo) if lo == hi else ('\\x%02X-\\x%02X' % (lo, hi)) for lo, hi in ranges) + ']'
+
+
+def class_shapes(byte_mode):
+    """byte sets chosen by how the generator renders them: one compare, two compares, a range with isolated holes anchored
+    at 0x00 / 0xFF, the full range minus one / two / three bytes (adjacent and not), two ranges, three isolated bytes"""
+    full = set(range(256)) if byte_mode else set(range(128))
+    top = 255 if byte_mode else 127
+    S = lambda *xs: set(xs)                 # noqa: E731
+    rng = lambda a, b: set(range(a, b + 1))  # noqa: E731
+    b, c, d, f, x = 0x62, 0x63, 0x64, 0x66, 0x78
+    shapes = [
+        ('one', S(b)), ('pair_gap2', S(b, d)), ('pair_far', S(b, x)), ('pair_case', S(0x42, b)), ('pair_adj', S(b, c)),
+        ('range', rng(b, f)), ('range_lo', rng(0, b)), ('range_hi', rng(0x71, top)), ('full', set(full)),
+        ('lo_hole', rng(0, 0x20) - S(9)), ('hi_hole', rng(top - 0x20, top) - S(top - 1)), ('lo_hole2', rng(0, 0x20) - S(9, 0x0B)),
+        ('not_one', full - S(b)), ('not_two', full - S(b, x)), ('not_gap2', full - S(b, d)), ('not_adj', full - S(b, c)),
+        ('not_range', full - rng(b, f)), ('lo_plus_one', rng(0, 0x10) | S(0x7A)), ('one_top', S(b, top)), ('ends', S(0, top)),
+        ('zero_two', S(0, 2)), ('top_two', S(top - 2, top)), ('not_zero', full - S(0)), ('not_top', full - S(top)),
+        ('not_ends', full - S(0, top)), ('not_one_lo', full - S(1)), ('not_one_hi', full - S(top - 1)),
+        ('not_zero_two', full - S(0, 2)), ('not_top_two', full - S(top - 2, top)), ('two_ranges', rng(0x61, c) | rng(x, 0x7A)),
+        ('three', S(b, d, f)), ('not_three', full - S(b, d, f)), ('not_case', full - S(0x58, x)),
+    ]
+    return shapes
+
+
+def class_family():
+    """Every class shape in every kind of state the generator distinguishes: a state with one edge (`pC`), with two edges
+    (`pC` next to `p#x`), a self-looping state entered through the class (`pC+`), and a loop with an exit (`pC*;`); and as
+    the only edge(s) of the root.  The prefixes are distinct upper-case letters, so the root is a jump table.
+    Byte mode over all 256 bytes, str mode over ASCII."""
+    D = []
+    for byte_mode in (True, False):
+        shapes = class_shapes(byte_mode)
+        G = 6
+        for gi in range(0, len(shapes), G):
+            chunk = shapes[gi:gi + G]
+            variants = []
+            letters = iter('ABCDEFGHIJKLMNOPQRSTUVWXYZ')
+            for name, bs in chunk:
+                cls = _cls_text(bs)
+                mk = (lambda t: R(t.encode())) if byte_mode else R
+                nm = ''.join(w.capitalize() for w in name.split('_'))
+                p1, p2, p3, p4 = next(letters), next(letters), next(letters), next(letters)
+                variants.append(Var(nm + 'One', [mk(p1 + cls)]))
+                variants.append(Var(nm + 'Two', [mk(p2 + cls + '!')]))
+                variants.append(Var(nm + 'TwoAlt', [mk(p2 + '#x')]))
+                variants.append(Var(nm + 'Loop', [_greedy(mk, p3 + cls + '+')]))
+                variants.append(Var(nm + 'LoopExit', [_greedy(mk, p4 + cls + '*;;')]))
+            quick = gi in ((0, 12, 24) if byte_mode else (12,))
+            tags = ('cls', 'loop') + (('bytes',) if byte_mode else ()) + (('quick',) if quick else ())
+            D.append(Def(f'cls_{"b" if byte_mode else "s"}{gi // G}', utf8=not byte_mode, variants=variants, tags=tags,
+                         note='shapes: ' + ', '.join(f'{n}({_cmp_ops(bs)} ops)' for n, bs in chunk)))
+        # the class as the only edge of the root / next to one other edge (the root is then a compare chain, not a table)
+        for name in ('not_two', 'not_gap2', 'lo_hole', 'hi_hole', 'pair_case', 'not_ends', 'zero_two', 'full', 'not_one', 'two_ranges'):
+            bs = dict(shapes)[name]
+            cls = _cls_text(bs)
+            mk = (lambda t: R(t.encode())) if byte_mode else R
+            vs = [Var('C', [mk(cls + '!')])]
+            other = next(o for o in (0x23, 0x62, 0x09, 0x00) if o not in bs) if len(bs) < (256 if byte_mode else 128) else None
+            if other is not None:
+                vs.append(Var('O', [mk('\\x%02X%s' % (other, 'k'))]))
+            D.append(Def(f'cls_root_{"b" if byte_mode else "s"}_{name}', utf8=not byte_mode, variants=vs,
+                         tags=('cls',) + (('bytes',) if byte_mode else ()) + (('quick',) if name in ('not_two', 'lo_hole') and byte_mode else ())))
+    return D
+
+
+def _greedy(mk, text):
+    p = mk(text)
+    p.allow_greedy = True
+    return p
+
+
 def all_defs(seed=0, thorough=False):     # noqa: F811
-    return core() + reject_core() + cb_defs() + literal_family(seed, thorough) + subpattern_family()
+    return core() + reject_core() + cb_defs() + literal_family(seed, thorough) + subpattern_family() + class_family()
 
 
 def all_defs_extended():    # noqa: F811
